@@ -56,3 +56,27 @@ def laws(fam, runner, a, b, c=None):
             if r["a == b"] and r["b == c"] and not r["a == c"]:
                 return bad("== not transitive")
     return True, "laws hold"
+
+
+PRODUCERS = [("true", lambda x: True), ("has(m.k)", lambda x: True), ("has(m.nope)", lambda x: False), ("(x > 0)", lambda x: x > 0),
+             ("(x in [1, 2])", lambda x: x in (1, 2)), ("[1, 2].exists(e, e > x)", lambda x: x < 2), ("[1, 2].all(e, e > x)", lambda x: x < 1),
+             ("!(x > 5)", lambda x: not x > 5), ("('k' in m)", lambda x: True), ("'ab'.startsWith('a')", lambda x: True),
+             ("(x > 0 || x < -3)", lambda x: x > 0 or x < -3), ("(x > 0 ? true : false)", lambda x: x > 0), ("bool('true')", lambda x: True),
+             ("[x].exists_one(e, e == 1)", lambda x: x == 1)]
+
+
+def bool_results(i, runner, x):
+    from celpy import celtypes as ct
+    p, fp = PRODUCERS[i]
+    b = {"x": ct.IntType(x), "m": ct.MapType({ct.StringType("k"): ct.IntType(1)})}
+    for q, fq in PRODUCERS[:7]:
+        pa, qa = fp(x), fq(x)
+        for src, want in ((f"{p} == {q}", pa == qa), (f"{p} != {q}", pa != qa), (f"{p} < {q}", (not pa) and qa), (f"{p} >= {q}", pa or not qa)):
+            try:
+                prog = make_program(src, runner)
+            except Exception as ex:  # noqa: BLE001
+                return False, f"`{src}` under {runner}: {type(ex).__name__} at program construction"
+            kd, r = evaluate_outcome(lambda: prog.evaluate(dict(b)))
+            if kd != "value" or bool(r) != want:
+                return False, f"`{src}` with x={x} under {runner}: expected {want}, got {kd} {r!r:.80}"
+    return True, "ok"
